@@ -60,7 +60,8 @@ func init() {
 
 func runC31(c *Ctx) {
 	c31Cleanup(c)
-	mT := "(*private/revcache/memrevcache.memRevCache)"
+	c31LifetimeArithmetic(c)
+	mT :="(*private/revcache/memrevcache.memRevCache)"
 	zc := "(*zgo.at/zcache/v2.cache[private/revcache.Key, *pkg/private/ctrl/path_mgmt.RevInfo])"
 	rT := "(*pkg/private/ctrl/path_mgmt.RevInfo)"
 	key := "private/revcache.NewKey(" + rT + ".IA(arg1), arg1.IfID)"
